@@ -111,7 +111,17 @@ def run_reshape():
 
 def run_world_prop(prop, tier, seed, replay):
     t0 = time.time()
+    sched_replay = None
     if replay:
+        try:
+            if "bin" in json.load(open(replay)):
+                sched_replay = replay        # a schedule run (C15 under scheduling)
+        except Exception:
+            pass
+    if sched_replay:
+        res = {"fails": [], "stats": {"events": 0}, "distinct": 0, "traces": 0, "samples": [], "drift": []}
+        mc = []
+    elif replay:
         res = pipe_world.run_world(tier, seed, scripts_only=replay)
         mc = []
     else:
@@ -169,9 +179,9 @@ def run_world_prop(prop, tier, seed, replay):
     for dmsg in res.get("drift", [])[:3]:
         print("SPEC-DRIFT: the strict store model (spec/WorldStore.tla) no longer predicts the store the code produces: " + dmsg)
     fails = [f for f in res["fails"] if f["prop"] == prop]
-    if prop == "C15" and not replay:
+    if prop == "C15" and (sched_replay or not replay):
         # resources under scheduling: final resource state of every schedule run vs the sequential run
-        sres = pipe_sched.run_sched(tier, seed)
+        sres = pipe_sched.run_sched(tier, seed, replay=sched_replay)
         for f in sres["fails"]:
             if f["prop"] == "C15":
                 h = f["hdr"]
